@@ -26,6 +26,28 @@ Specification: spec/P2Bin.tla (on top of spec/CodeFile.tla)
     tokenised with their header forms.  The renderer writes exactly the form the case names.  Before, the header form
     was a coin of the renderer limited to families with ONE granularity, so a reader that derives the implied
     granularity from anything but (family, CODE) - e.g. the segment of the preceding record - went unseen.
+  * MIXED GRANULARITY among the selected records (P2Bin.tla Part 2b: DefiniteMixed / AllowedMixed).  Before, Definite
+    demanded ONE granularity among the selected records and every other case was "manual silent" (drift only) - an
+    undecided zone the manual does not justify: "address specifications always relate to the granularity of the
+    processor currently in question", "the start address refers to the granularity, the Length value is always expressed
+    in bytes".  Definite there, whatever the layout: exit 0; length = (B - A + 1) x LARGEST granularity / lane factor;
+    entry header; every image byte is fill or a byte a selected record holds at an address INSIDE the window and in the
+    lane (never a clipped-away byte, a record header, an unselected record, the creator string); a record of the
+    largest granularity lies where the uniform rule puts it (no fill over it, none of its bytes elsewhere); EVERY
+    selected record shows the bytes of its clipped part from the clip address on, contiguous and in order (single
+    bytes may be hidden by another selected record's bytes); -s; overlap warning for pairs of equal granularity as in
+    the uniform case.  OPEN (drift only): where a record of a smaller granularity stands in the image relative to the
+    larger ones, and the warning for pairs of different granularity.
+    TLC: P2Bin_MC_mixed / _mixedpost (ConformsMixed, WindowStableMixed, MeasureSoundMixed; also added to _select):
+    <= 2 records of 4 units at 0, 1, 3, 6 in units of 1 / 2 / 4 bytes x 7 windows (start / end strictly inside a record
+    of either unit, at its edges, outside, automatic, half-automatic) x ALL / ODD / WORD1; x two files with (offset) x
+    -S none / L2 / B3 x -s x -e x -l.  P2Bin_MC_probe_skip_maxgran: the PROBE `source skip counted in MaxGran` (not in
+    the pinned tree) - TLC must find ConformsMixed violated while Conforms holds (the claim is not vacuous).
+    Replay: P2Bin_CoverMixed / CoverMixedPost exhaustively (quick: 5121 cases, 2494 of them DefiniteMixed), a third of
+    the simulated cases in MIXED MODE (CODE records of any granularity, long and short headers, all options), and 40
+    (thorough 400) PROGRAMS FOR SEVERAL PROCESSORS (z80 / 8051 / 6502 bytes, 32015 / 16c84 words, 320C30 longwords in
+    one CODE segment; a quarter as two code files with (offset)) assembled by the real asl, tokenised by the independent
+    reader, 4 seed-chosen option sets each.  Corpus windows now also start / end strictly inside the chosen record.
 (F) spec/FilterList.tla: the option state behind -f (shared toolutils.c CMD_FilterList/FilterOK + cmdarg.c ProcessCMD):
     a case carries the SEQUENCE of -f (add) / +f (cancel) operations, those preset through P2BINCMD first; operational =
     the FilterBytes array with append-unless-found and swap-remove, declarative = an id is in the filter iff the last
@@ -54,7 +76,8 @@ Verdict: ~ok is a violation; it is a KNOWN finding only if fit names deviations 
 Bounds: addresses < 2^24 (no 32-bit wrap), payload per record <= 32 bytes in generated cases (plus the P2Bin_CoverBig
     space: one record of 4097 or 9000 bytes, longer than the 4096-byte copy buffer, x 9 lanes x 2 windows), corpus
     files <= 24 KiB (quick) with windows <= 1024 units; MC constants are stated in the cfg files.
-NOT covered: non-definite cases are not judged (mixed granularity among the selected records, windows whose length is
+NOT covered: non-definite cases are not judged (the POSITION of a smaller-granularity record in an image laid out for a
+    larger one - everything else about such cases is judged by AllowedMixed -, windows whose length is
     not a whole number of lane periods, automatic range with nothing selected, overlap only outside the window); -k; wildcards in
     file names; environment variable P2BINCMD; addresses >= 2^24; records > 64 KiB cannot exist.
     Which record wins on overlapping bytes and the header contents without any entry address are left open as the
@@ -96,7 +119,11 @@ MC_QUICK = ["P2Bin_MC_window.cfg", "P2Bin_MC_overlap.cfg", "P2Bin_MC_select.cfg"
             "P2Bin_MC_files.cfg", "P2Bin_MC_phase.cfg", "P2Bin_MC_forms.cfg"]
 MC_THOROUGH = ["P2Bin_MC_window3.cfg", "P2Bin_MC_overlap.cfg", "P2Bin_MC_select3.cfg", "P2Bin_MC_post.cfg",
                "P2Bin_MC_files3.cfg", "P2Bin_MC_phase3.cfg", "P2Bin_MC_forms3.cfg", "P2Bin_MC_formsseg.cfg"]
+MC_QUICK += ["P2Bin_MC_mixed.cfg", "P2Bin_MC_mixedpost.cfg"]
+MC_THOROUGH += ["P2Bin_MC_mixedpost.cfg", "P2Bin_MC_mixed2.cfg", "P2Bin_MC_mixed3.cfg"]
 DEV_CFG = {d: "P2Bin_MC_dev_%s.cfg" % d for d in DEVS}
+# hypothetical departures (P2Bin!Probes, not in the pinned tree): cfg, the invariant TLC must find violated
+PROBES = {"skip_maxgran": ("P2Bin_MC_probe_skip_maxgran.cfg", "ConformsMixed")}
 
 
 # ------------------------------------------------------------------------------------------------
@@ -238,6 +265,11 @@ def corpus_options(items, hints, r, maxwin):
             units = len(it["data"]) // g
             lo = max(0, it["start"] - r.choice([0, 0, 1, 4, 16]))
             hi = it["start"] + max(0, min(units, maxwin) - 1) + r.choice([0, 0, 1, 4, 64])
+            # window edges strictly INSIDE the chosen record (its first / last addresses are clipped away)
+            if units > 1 and r.random() < 0.3:
+                lo = it["start"] + r.randrange(1, min(units, maxwin))
+            if units > 1 and r.random() < 0.3:
+                hi = max(lo, it["start"] + r.randrange(0, min(units, maxwin) - 1))
             mode = r.randrange(5)
             lane = r.choice(["ALL", "ALL", "EVEN", "ODD", "BYTE0", "BYTE1", "BYTE2", "BYTE3", "WORD0", "WORD1"])
             if lane != "ALL":
@@ -272,6 +304,75 @@ def corpus_options(items, hints, r, maxwin):
                 o["e"] = r.choice([0x1234, 0x123456, 0x7F])
         o["sum"] = r.random() < 0.3
         out.append(o)
+    return out
+
+
+# ------------------------------------------------------------------------------------------------
+# programs for SEVERAL processors of different granularity in one segment, written by the real asl
+# ------------------------------------------------------------------------------------------------
+# (CPU name, data statement, bytes per address, largest value).  What the records mean is read back from the code file
+# by the independent reader; this table only spells sources.
+MIX_CPUS = [("z80", "db", 1, 255), ("8051", "db", 1, 255), ("6502", "byt", 1, 255),
+            ("32015", "data", 2, 65535), ("16c84", "data", 2, 16383), ("320C30", "word", 4, (1 << 31) - 1)]
+
+
+def mixed_source(r):
+    """one source: 2..4 blocks of different processors at ascending (sometimes overlapping) addresses; at least two
+    different address units among them"""
+    while True:
+        blocks = [r.choice(MIX_CPUS) for _ in range(r.randrange(2, 5))]
+        if len({b[2] for b in blocks}) > 1:
+            break
+    lines, adr = [], r.choice([0, 3, 16, 0x100])
+    for (cpu, stmt, _, top) in blocks:
+        n = r.choice([1, 2, 4, 5, 8, 12, 16])
+        lines.append("\tcpu\t%s" % cpu)
+        lines.append("\torg\t%d" % adr)
+        vals = [r.randrange(1, top + 1) for _ in range(n)]
+        for i in range(0, n, 6):
+            lines.append("\t%s\t%s" % (stmt, ",".join(str(v) for v in vals[i:i + 6])))
+        adr = max(0, adr + n + r.choice([-2, 0, 0, 1, 3, 8]))
+    return "\n".join(lines) + "\n"
+
+
+def mixed_programs(rep, tier, bld, maxwin):
+    """-> list of (name, case, job): real code files with records of several granularities, seed-chosen option sets
+    (windows starting / ending inside, at the edge of and outside records of either unit, lanes, -S, -e, -s, -l, -f;
+    a quarter of the programs as two code files, the second with an (offset))"""
+    nprog = 40 if tier == "quick" else 400
+    progs = []
+    for i in range(nprog):
+        r = rng("c05/mixprog/%d" % i)
+        srcs = [mixed_source(r)]
+        off = 0
+        if r.random() < 0.25:
+            srcs.append(mixed_source(r))
+            off = r.choice([0, 1, 7, 0x40])
+        progs.append((r, srcs, off))
+    jobs = [{"sources": {"a.asm": src}, "main": "a.asm", "opts": ["-q"]} for (_, srcs, _) in progs for src in srcs]
+    with Phase("assemble %d programs for several processors" % len(jobs)):
+        res = aslrun.assemble_many(bld, jobs)
+    out, k, nfiles = [], 0, 0
+    for i, (r, srcs, off) in enumerate(progs):
+        ps = [res[k + j].p for j in range(len(srcs))]
+        k += len(srcs)
+        if any(p is None for p in ps):
+            raise CheckError("asl did not assemble a mixed-processor source: %s" % srcs[0][:200])
+        toks = [corpus_items(p) for p in ps]
+        if any(t[0] is None for t in toks):
+            continue
+        nfiles += len(ps)
+        files = [{"off": 0, "items": toks[0][0]}] + ([{"off": off, "items": toks[1][0]}] if len(ps) > 1 else [])
+        # all records with their final addresses: only to choose windows worth trying
+        flat = list(toks[0][0]) + [dict(it, start=it["start"] + off) if it["k"] == "D" else it
+                                   for it in (toks[1][0] if len(ps) > 1 else [])]
+        hints = list(toks[0][1]) + (list(toks[1][1]) if len(ps) > 1 else [])
+        for o in corpus_options(flat, hints, r, maxwin) + corpus_options(flat, hints, r, maxwin)[:1]:
+            c = {"files": files, "o": o}
+            job = render(c, r)
+            job["files"] = {"f%d.p" % j: p for j, p in enumerate(ps)}        # the real files
+            out.append(("mixed-processor program %d" % i, c, job))
+    rep.part("mixed_processor_programs", programs=nprog, code_files=nfiles, cases=len(out))
     return out
 
 
@@ -381,20 +482,27 @@ def main(tier):
         if not found[d]:
             raise CheckError("deviation %s is vacuous: TLC finds no violation of Conforms with Dev = {%s}" % (d, d))
         rep.model("P2Bin_MC(Dev={%s}: defect found by TLC)" % d, mc)
+    for d, (cfg, inv) in ([] if nomc else sorted(PROBES.items())):
+        mc = tlc.must(tlc.run("P2Bin_MC", cfg, timeout=900, mem="6g", collect=False, workers=4), cfg)
+        if not (mc.violation and ("Invariant %s is violated" % inv) in mc.violation):
+            raise CheckError("the declarative claim %s is vacuous: TLC does not find it violated with Dev = {%s}: %s"
+                             % (inv, d, (mc.violation or "no violation")[:300]))
+        rep.model("P2Bin_MC(probe {%s}: %s violated, found by TLC)" % (d, inv), mc)
 
     # (G) ------------------------------------------------------------------------------------------
     cases = []
     for cfg in (["P2Bin_Cover.cfg", "P2Bin_CoverOvl.cfg", "P2Bin_CoverBig.cfg", "P2Bin_CoverFilt.cfg", "P2Bin_CoverPhase.cfg",
-                 "P2Bin_CoverForms.cfg"]
+                 "P2Bin_CoverForms.cfg", "P2Bin_CoverMixed.cfg", "P2Bin_CoverMixedPost.cfg"]
                 if tier == "quick"
                 else ["P2Bin_Cover1.cfg", "P2Bin_CoverOvl.cfg", "P2Bin_CoverBig.cfg", "P2Bin_CoverFilt.cfg", "P2Bin_Cover2.cfg",
-                      "P2Bin_CoverPhase1.cfg", "P2Bin_CoverForms1.cfg", "P2Bin_CoverForms2.cfg"]):
+                      "P2Bin_CoverPhase1.cfg", "P2Bin_CoverForms1.cfg", "P2Bin_CoverForms2.cfg", "P2Bin_CoverMixed1.cfg",
+                      "P2Bin_CoverMixedPost.cfg"]):
         with Phase("TLC " + cfg):
             cov = tlc.must(tlc.run("P2Bin_Gen", cfg, timeout=1500, mem="8g"), cfg)
         rep.model("P2Bin_Gen(%s)" % cfg, cov)
         cases += [("cover", x) for (tag, x) in cov.printed if tag == "TR"]
     ncover = len(cases)
-    nsim = 340 if tier == "quick" else 3400
+    nsim = 420 if tier == "quick" else 4200
     with Phase("TLC simulate"):
         sim = tlc.must(tlc.run("P2Bin_Gen", "P2Bin_Sim.cfg", workers=4, simulate=nsim, depth=12, timeout=1500,
                                mem="8g"), "P2Bin_Gen simulate")
@@ -406,9 +514,10 @@ def main(tier):
                 seen.add(k)
                 cases.append(("sim", x))
     rep.part("generation", cover_cases=ncover, simulated_distinct=len(seen),
-             definite=sum(1 for (_, x) in cases if x["def"]))
+             definite=sum(1 for (_, x) in cases if x["def"]),
+             definite_mixed_granularity=sum(1 for (_, x) in cases if x["mix"]))
     for (_, x) in cases:
-        if x["def"] and not x["allowed"]:
+        if (x["def"] or x["mix"]) and not x["allowed"]:
             raise CheckError("specification inconsistent: Run({}, c) not Allowed for %s" % json.dumps(x["c"])[:600])
     jobs = [render(x["c"], rng("c05/%d" % i)) for i, (_, x) in enumerate(cases)]
     with Phase("replay %d cases into p2bin" % len(jobs)):
@@ -417,7 +526,7 @@ def main(tier):
     again = []
     for i, ((kind, x), job, res) in enumerate(zip(cases, jobs, results)):
         rep.evaluated()
-        rep.distinct(json.dumps(x["c"], sort_keys=True), bool(x["def"]))
+        rep.distinct(json.dumps(x["c"], sort_keys=True), bool(x["def"] or x["mix"]))
         obs = observe(res)
         if obs != x["exp"]:
             again.append(i)
@@ -433,7 +542,8 @@ def main(tier):
             pending.append(("%s case" % cases[i][0], cases[i][1]["c"], jobs[i], o1, cases[i][1]["exp"]))
     rep.part("replay", cases=len(jobs), differing_from_model=len(pending))
     for (kind, x), job in list(zip(cases, jobs))[:2] + list(zip(cases, jobs))[-2:]:
-        rep.sample({"case": x["c"], "argv": job["argv"], "expected": x["exp"], "definite": x["def"]})
+        rep.sample({"case": x["c"], "argv": job["argv"], "expected": x["exp"], "definite": x["def"],
+                    "definite_mixed": x["mix"]})
     rep.traces(len(jobs))
 
     # (V) real code files ----------------------------------------------------------------------------
@@ -489,12 +599,16 @@ def main(tier):
             job["files"] = {"f0.p": p}          # the real file, not a re-rendering
             cjobs.append(job)
             ccases.append((name, c))
+    for name, c, job in mixed_programs(rep, tier, bld, maxwin):
+        cjobs.append(job)
+        ccases.append((name, c))
     with Phase("run p2bin on %d corpus cases" % len(cjobs)):
         cres = utilrun.run_many(bld, "p2bin", cjobs)
     for (name, c), job, res in zip(ccases, cjobs, cres):
         rep.evaluated()
         rep.distinct("corpus/%s/%s" % (name, json.dumps(c["o"], sort_keys=True)))
-        pending.append(("golden test %s" % name, c, job, observe(res), {"rc": "?", "bytes": [], "warn": "?"}))
+        pending.append((name if name.startswith("mixed-") else "golden test %s" % name, c, job, observe(res),
+                        {"rc": "?", "bytes": [], "warn": "?"}))
     rep.part("corpus", files=len(ps) + len(bound) - skipped, skipped_outside_model=skipped, cases=len(cjobs),
              bound_by_pbind=len(bound), short_header_records=nshort)
     rep.traces(len(cjobs))
